@@ -513,6 +513,9 @@ Section Inv.
   Variable ok : N -> bool.
   Variable Wok : W -> Prop.          (* "what has been written so far is clean", for an abstract writer *)
   Variable ae : option bool.         (* the autoescape override of the render *)
+  (* what is known about each piece of text handed to a sink: any predicate that holds of the literal
+     text of the chunks, of the formatted safe values and of the escaper applied to the others *)
+  Variable T : str -> Prop.
   Notation clean := (clean ok).
   Notation vok := (vok ok).
   Notation ctx_ok := (ctx_ok ok).
@@ -528,7 +531,7 @@ Section Inv.
   (* literal text / constants as in Model/Taint.v, and the decidable side condition of
      Model/CapCheck.v: every RenderBodyComponent pops a body that a mint point pushed *)
   Definition chunk_okP (ch : list instr) : Prop :=
-    chunk_ok ok ch = true /\ bodies_from_capture ch = true.
+    chunk_ok ok ch = true /\ bodies_from_capture ch = true /\ (forall t, In (WriteText t) ch -> T t).
 
   Definition tpl_okP (t : template) : Prop :=
     aeon t = true /\ chunk_okP (t_chunk t) /\ chunk_okP (t_root_chunk t) /\
@@ -554,7 +557,9 @@ Section Inv.
     wo_components : forall n d c, assoc_get (w_components wd) n = Some (d, c) -> chunk_okP c }.
 
   Hypothesis Hw : world_ok.
-  Hypothesis Hwr : forall w t w', wr w t = Some w' -> Wok w -> clean t = true -> Wok w'.
+  Hypothesis Hwr : forall w t w', wr w t = Some w' -> Wok w -> clean t = true -> T t -> Wok w'.
+  Hypothesis HT_raw : forall v, value_is_safe v = true -> T (w_format wd v).
+  Hypothesis HT_esc : forall v, value_is_safe v = false -> T (w_escape wd (w_format wd v)).
 
   Definition OInv (o : sink W) : Prop :=
     match o with SinkTop w => Wok w | SinkBuf b => clean b = true end.
@@ -653,9 +658,9 @@ Section Inv.
   (* ---------- the sinks ---------- *)
 
   Lemma emit_inv s o text s1 o1 :
-    emit W wr s o text = Some (s1, o1) -> SInv s -> OInv o -> clean text = true -> SInv s1 /\ OInv o1.
+    emit W wr s o text = Some (s1, o1) -> SInv s -> OInv o -> clean text = true -> T text -> SInv s1 /\ OInv o1.
   Proof.
-    intros E Hs Ho Ht. unfold emit in E. destruct (caps s) as [|c t] eqn:Ec.
+    intros E Hs Ho Ht HT. unfold emit in E. destruct (caps s) as [|c t] eqn:Ec.
     - unfold sink_write in E. destruct o as [w|b].
       + destruct (wr w text) as [w'|] eqn:Ew; [|discriminate]. inversion E; subst.
         split; [exact Hs|]. cbn. eapply Hwr; eassumption.
@@ -672,8 +677,8 @@ Section Inv.
   Proof.
     intros E Hs Ho Hv. unfold write_value in E. cbn [negb orb] in E.
     destruct (value_is_safe v) eqn:Es.
-    - eapply emit_inv; try eassumption. apply (wo_format Hw); assumption.
-    - eapply emit_inv; try eassumption. apply (wo_escape Hw).
+    - eapply emit_inv; try eassumption; [apply (wo_format Hw); assumption|apply HT_raw, Es].
+    - eapply emit_inv; try eassumption; [apply (wo_escape Hw)|apply HT_esc, Es].
   Qed.
 
   (* ---------- value computations ---------- *)
@@ -905,7 +910,7 @@ Section Inv.
     | |- post (match run _ _ _ ?f ?t _ ?d ?c ?i ?s ?o with _ => _ end) =>
         let P := fresh "P" in
         assert (P : post (run W wr wd f t ae d c i s o));
-        [apply IH; [exact Htpl | exact Hch | exact (cmatch_entry _ _ _ (proj2 Hch)) | | ]
+        [apply IH; [exact Htpl | exact Hch | exact (cmatch_entry _ _ _ (proj1 (proj2 Hch))) | | ]
         | let s' := fresh "sn" in let o' := fresh "on" in
           destruct (run W wr wd f t ae d c i s o) as [s' o'| |]; try exact I; cbn [post] in P]
     end.
@@ -917,7 +922,7 @@ Section Inv.
     cbn [run]. rewrite ?Hae.
     destruct (nth_error ch ip) as [i|] eqn:Hi; [|split; assumption].
     assert (Hiok : Taint.instr_ok ok i = true) by (eapply nth_error_forallb; [apply Hc|exact Hi]).
-    destruct (cmatch_step _ _ _ _ _ (proj2 Hc) Hi Hcm) as (a & edges & Hrel & Hstep & Hedges).
+    destruct (cmatch_step _ _ _ _ _ (proj1 (proj2 Hc)) Hi Hcm) as (a & edges & Hrel & Hstep & Hedges).
     destruct a as [A L].
     destruct i as [v | n | a | a |  |  |  |  | t |  | n | n | n | k | k | fl | fl | n | n | n | n | n | n | t | t | t | t |  |  | kv | kv | t | n |  |  |  |  |  |  |  |  |  |  |  |  |  |  |  |  |  |  |  |  |  | p | p]; cbn [Taint.instr_ok] in Hiok; cbn [castep c_stack c_loops] in Hstep;
       cbv beta iota; try (injection Hstep as Hstep; subst edges).
@@ -963,7 +968,7 @@ Section Inv.
       apply (crel_upd_stack A L s 4 t r false Hrel); [rewrite Est; reflexivity|discriminate].
     - (* WriteText *)
       destruct (emit W wr s o t) as [[s1 o1]|] eqn:E; [|exact I].
-      destruct (emit_inv _ _ _ _ _ E Hs Ho Hiok) as [Hs1 Ho1]. nx IH Ht Hc Hedges; assumption.
+      destruct (emit_inv _ _ _ _ _ E Hs Ho Hiok (proj2 (proj2 Hc) _ (nth_error_In _ _ Hi))) as [Hs1 Ho1]. nx IH Ht Hc Hedges; assumption.
     - (* WriteTop *)
       destruct (pop1 s) as [[v s1]|] eqn:Hp; [|exact I]. destruct (pop1_inv _ _ _ Hp Hs) as [Hv Hs1].
       destruct (is_undefined v); [exact I|].
@@ -1168,7 +1173,7 @@ Section Inv.
         { intros Hed. destruct (Nat.le_gt_cases (lf_end_ip fr) (length ch)) as [Hle|Hgt].
           - eapply cedges_match; [exact Hed| |exact Hrel]. right. apply in_map_iff. exists (lf_end_ip fr).
             split; [reflexivity|apply in_seq; lia].
-          - eapply cmatch_out; [exact (proj2 Hc)|exact Hgt]. }
+          - eapply cmatch_out; [exact (proj1 (proj2 Hc))|exact Hgt]. }
         destruct L as [|[| |t0] L']; injection Hstep as Hstep; subst edges; try (apply Hany; exact Hedges).
         destruct (proj2 Hrel 0) as (fr0 & X & Hend). cbn in X. rewrite El in X. inversion X; subst fr0.
         rewrite Hend. eapply cedges_match; [exact Hedges|left; reflexivity|exact Hrel].
@@ -1234,12 +1239,15 @@ Section Inv.
 
 End Inv.
 
+(* no information asked about the pieces *)
+Definition TT (_ : str) : Prop := True.
+
 (* the entry points: render / render_block (no autoescape override: the name suffix decides) *)
 Theorem render_to_inv W wr wd ok (Wok : W -> Prop) :
-  world_ok wd ok None ->
+  world_ok wd ok None TT ->
   (forall w t w', wr w t = Some w' -> Wok w -> clean ok t = true -> Wok w') ->
   forall fuel tpl block c g w,
-  tpl_okP ok None tpl -> ctx_ok ok c = true -> ctx_ok ok g = true -> Wok w ->
+  tpl_okP ok None TT tpl -> ctx_ok ok c = true -> ctx_ok ok g = true -> Wok w ->
   match render_to W wr wd fuel tpl block c g w with
   | RDone _ (SinkTop w') => Wok w'
   | RDone _ (SinkBuf b) => clean ok b = true
@@ -1248,16 +1256,18 @@ Theorem render_to_inv W wr wd ok (Wok : W -> Prop) :
 Proof.
   intros Hw Hwr fuel tpl block c g w Ht Hc Hg Hw0. unfold render_to.
   match goal with |- context [run W wr wd fuel tpl None 0 (t_root_chunk tpl) 0 ?s0 _] => set (s0' := s0) end.
-  assert (Hs0 : SInv ok s0'). { constructor; cbn; try reflexivity; [constructor|exact Hc|exact Hg]. }
+  assert (Hs0 : SInv ok TT s0'). { constructor; cbn; try reflexivity; [constructor|exact Hc|exact Hg]. }
+  assert (Hwr' : forall w t w', wr w t = Some w' -> Wok w -> clean ok t = true -> TT t -> Wok w') by (intros; eapply Hwr; eassumption).
+  assert (Hroot := proj1 (proj2 (proj2 Ht))).
   destruct block as [b|].
-  - pose proof (run_inv W wr wd ok Wok None Hw Hwr fuel tpl 0 (t_root_chunk tpl) 0 s0' (SinkBuf [])
-                  Ht (proj1 (proj2 (proj2 Ht))) (cmatch_entry _ _ _ (proj2 (proj1 (proj2 (proj2 Ht))))) Hs0 eq_refl) as P.
+  - pose proof (run_inv W wr wd ok Wok None TT Hw Hwr' (fun _ _ => I) (fun _ _ => I) fuel tpl 0 (t_root_chunk tpl) 0 s0' (SinkBuf [])
+                  Ht Hroot (cmatch_entry _ _ _ (proj1 (proj2 Hroot))) Hs0 eq_refl) as P.
     destruct (run W wr wd fuel tpl None 0 (t_root_chunk tpl) 0 s0' (SinkBuf [])) as [s1 o1| |]; try exact I.
     destruct P as [Hs1 _].
     destruct (wr w (block_buffer s1)) as [w1|] eqn:Ew; [|exact I].
     eapply Hwr; [exact Ew|exact Hw0|apply Hs1].
-  - pose proof (run_inv W wr wd ok Wok None Hw Hwr fuel tpl 0 (t_root_chunk tpl) 0 s0' (SinkTop w)
-                  Ht (proj1 (proj2 (proj2 Ht))) (cmatch_entry _ _ _ (proj2 (proj1 (proj2 (proj2 Ht))))) Hs0 Hw0) as P.
+  - pose proof (run_inv W wr wd ok Wok None TT Hw Hwr' (fun _ _ => I) (fun _ _ => I) fuel tpl 0 (t_root_chunk tpl) 0 s0' (SinkTop w)
+                  Ht Hroot (cmatch_entry _ _ _ (proj1 (proj2 Hroot))) Hs0 Hw0) as P.
     destruct (run W wr wd fuel tpl None 0 (t_root_chunk tpl) 0 s0' (SinkTop w)) as [s1 [w1|b1]| |]; try exact I; apply P.
 Qed.
 
@@ -1414,7 +1424,7 @@ Definition tpl_ok_for (ok : N -> bool) (ae : option bool) (t : template) : bool 
   | Some false => false
   end.
 
-Lemma tpl_okP_of ok ae t : tpl_ok_for ok ae t = true -> tpl_bodies_ok t = true -> tpl_okP ok ae t.
+Lemma tpl_okP_of ok ae t : tpl_ok_for ok ae t = true -> tpl_bodies_ok t = true -> tpl_okP ok ae TT t.
 Proof.
   intros H Hb.
   assert (Hc : aeon ae t = true /\ tpl_chunks_ok ok t = true).
@@ -1422,11 +1432,12 @@ Proof.
     unfold tpl_ok in H. unfold tpl_chunks_ok. rewrite !andb_true_iff in *. tauto. }
   destruct Hc as [Hae Hch]. unfold tpl_chunks_ok in Hch. rewrite !andb_true_iff in Hch.
   destruct Hch as [[H1 H2] H3]. unfold tpl_bodies_ok in Hb. rewrite !andb_true_iff in Hb. destruct Hb as [[B1 B2] B3].
-  split; [exact Hae|]. split; [split; assumption|]. split; [split; assumption|].
+  assert (HTT : forall ch, forall t0, In (WriteText t0) ch -> TT t0) by (intros; exact I).
+  split; [exact Hae|]. split; [repeat split; auto|]. split; [repeat split; auto|].
   intros b lin E. apply assoc_get_in in E. destruct E as (k & Hin).
   rewrite forallb_forall in H3. specialize (H3 _ Hin). cbn [snd] in H3.
   rewrite forallb_forall in B3. specialize (B3 _ Hin). cbn [snd] in B3.
-  apply Forall_forall. intros ch Hch. rewrite forallb_forall in H3, B3. split; [apply H3, Hch|apply B3, Hch].
+  apply Forall_forall. intros ch Hch. rewrite forallb_forall in H3, B3. split; [apply H3, Hch|split; [apply B3, Hch|apply HTT]].
 Qed.
 
 Section Flat.
@@ -1451,9 +1462,9 @@ Section Flat.
   Hypothesis Hcomps : forall n d c, assoc_get (w_components wd) n = Some (d, c) ->
       chunk_ok ok c = true /\ bodies_from_capture c = true.
 
-  Lemma plain_world_ok : world_ok wd ok ae.
+  Lemma plain_world_ok : world_ok wd ok ae TT.
   Proof.
-    constructor; try assumption.
+    constructor; try assumption; [|intros n d c E; destruct (Hcomps _ _ _ E); repeat split; auto; intros; exact I].
     intros n t E. destruct (Htpls _ _ E). apply tpl_okP_of; assumption.
   Qed.
 End Flat.
@@ -1520,12 +1531,13 @@ Section Default.
     end.
   Proof.
     intros Htpls fuel tpl cchunk cctx Ht Htb Hch Hcb Hc.
-    pose proof (run_inv str wr_str wd ok_html (fun w => clean ok_html w = true) (Some true)
+    pose proof (run_inv str wr_str wd ok_html (fun w => clean ok_html w = true) (Some true) TT
                   (plain_world_ok wd ok_html (Some true) Hesc' Hfmt' Hfilter Hfunction Hmath Hnegate Hmapget Hgetattr
                      Hbuild Htpls Hcomps)
-                  (wr_str_clean ok_html) fuel tpl 0 cchunk 0 (new_state cctx) (SinkTop [])
-                  (tpl_okP_of ok_html (Some true) tpl Ht Htb) (conj Hch Hcb) (cmatch_entry _ _ _ Hcb)
-                  (new_state_inv ok_html cctx Hc) eq_refl) as P.
+                  (fun w t w' E Hw0 Ht0 _ => wr_str_clean ok_html w t w' E Hw0 Ht0) (fun _ _ => I) (fun _ _ => I)
+                  fuel tpl 0 cchunk 0 (new_state cctx) (SinkTop [])
+                  (tpl_okP_of ok_html (Some true) tpl Ht Htb) (conj Hch (conj Hcb (fun _ _ => I))) (cmatch_entry _ _ _ Hcb)
+                  (new_state_inv ok_html TT cctx Hc) eq_refl) as P.
     destruct (run str wr_str wd fuel tpl (Some true) 0 cchunk 0 (new_state cctx) (SinkTop []))
       as [s1 [out|b]| |]; try exact I. apply P.
   Qed.
@@ -1832,3 +1844,147 @@ Example default_suffixes_example :
       [[97;46;104;116;109;108]; [97;46;116;120;116]; [97;46;104;116;109;108;46;116;120;116]; [46;120;109;108]; [104;116;109;108]]%N
   = [true; false; false; true; false].
 Proof. vm_compute. reflexivity. Qed.
+
+(* ================================================================== part 6: the escaper is a parameter *)
+
+(* ---------- (a) any escape function whose output avoids a character set ---------- *)
+
+Section AnyEscaper.
+  Variable wd : world.
+  Variable ok : N -> bool.
+  Hypothesis Hesc : forall s, clean ok (w_escape wd s) = true.
+  Hypothesis Hfmt : forall v, value_is_safe v = true -> vok ok v = true -> clean ok (w_format wd v) = true.
+  Hypothesis Hfilter : forall n v k sc r sf, w_filter wd n v k sc = Some (ROk r, sf) ->
+      vok ok v = true -> kw_ok ok k = true -> scope_ok ok sc = true -> vok ok (if sf then mark_safe r else r) = true.
+  Hypothesis Hfunction : forall n k sc r sf, w_function wd n k sc = Some (ROk r, sf) ->
+      kw_ok ok k = true -> scope_ok ok sc = true -> vok ok (if sf then mark_safe r else r) = true.
+  Hypothesis Hmath : forall i a b c, w_math wd i a b = ROk c -> vok ok a = true -> vok ok b = true -> vok ok c = true.
+  Hypothesis Hnegate : forall a c, w_negate wd a = ROk c -> vok ok a = true -> vok ok c = true.
+  Hypothesis Hmapget : forall m k x, w_map_get wd m k = Some x -> kw_ok ok m = true -> vok ok x = true.
+  Hypothesis Hgetattr : forall v a x, w_get_attr wd v a = Some x -> vok ok v = true -> vok ok x = true.
+  Hypothesis Hbuild : forall n d ch, assoc_get (w_components wd) n = Some (d, ch) ->
+      forall k b c, w_build_ctx wd d k b = ROk c -> kw_ok ok k = true ->
+      obody_ok ok b = true -> ctx_ok ok c = true.
+  Hypothesis Hcomps : forall n d c, assoc_get (w_components wd) n = Some (d, c) ->
+      chunk_ok ok c = true /\ bodies_from_capture c = true.
+  Hypothesis Htpls : forall n t, assoc_get (w_templates wd) n = Some t -> tpl_ok ok t = true /\ tpl_bodies_ok t = true.
+
+  Theorem no_raw_data_any_escaper :
+    forall fuel tpl block c g,
+    tpl_ok ok tpl = true -> tpl_bodies_ok tpl = true -> ctx_ok ok c = true -> ctx_ok ok g = true ->
+    match render_to str wr_str wd fuel tpl block c g [] with
+    | RDone _ (SinkTop out) => clean ok out = true
+    | _ => True
+    end.
+  Proof.
+    intros fuel tpl block c g Ht Htb Hc Hg.
+    pose proof (render_to_inv str wr_str wd ok (fun w => clean ok w = true)
+                  (plain_world_ok wd ok None Hesc Hfmt Hfilter Hfunction Hmath Hnegate Hmapget Hgetattr
+                     Hbuild Htpls Hcomps)
+                  (wr_str_clean ok) fuel tpl block c g [] (tpl_okP_of ok None tpl Ht Htb) Hc Hg eq_refl) as P.
+    destruct (render_to str wr_str wd fuel tpl block c g []) as [s1 [out|b]| |]; auto.
+  Qed.
+End AnyEscaper.
+
+(* an instance other than HTML: the JS-string escaper of the harness (xNN style) never writes a slash, a quote, an apostrophe or a newline *)
+Definition ok_js (c : N) : bool := negb ((c =? 47) || (c =? 34) || (c =? 39) || (c =? 10))%N.
+
+Theorem escape_js_clean : forall s, clean ok_js (escape_js s) = true.
+Proof.
+  induction s as [|c t IH]; [reflexivity|]. cbn [escape_js flat_map]. apply clean_app_intro; [|exact IH].
+  unfold escape_js_char.
+  destruct (c =? 92)%N eqn:E1; [reflexivity|]. destruct (c =? 47)%N eqn:E2; [reflexivity|].
+  destruct (c =? 34)%N eqn:E3; [reflexivity|]. destruct (c =? 39)%N eqn:E4; [reflexivity|].
+  destruct (c =? 10)%N eqn:E5; [reflexivity|]. cbn. unfold ok_js. rewrite E2, E3, E4, E5. reflexivity.
+Qed.
+
+
+(* ---------- (b) the marker form: the sequence of writes to the output ---------- *)
+
+Definition allok (_ : N) : bool := true.
+
+Lemma clean_all s : clean allok s = true.
+Proof. induction s; [reflexivity|exact IHs]. Qed.
+
+Lemma vok_all : forall v, vok allok v = true.
+Proof.
+  fix IH 1. intros [ | | b | r z | f | s fl | l | m | b ]; try reflexivity.
+  - destruct fl; [apply clean_all|reflexivity].
+  - cbn. induction l as [|x t IHl]; [reflexivity|]. rewrite (IH x). exact IHl.
+  - cbn. induction m as [|[k x] t IHm]; [reflexivity|]. rewrite (IH x). exact IHm.
+Qed.
+
+Lemma forallb_all {A} (g : A -> bool) l : (forall x, g x = true) -> forallb g l = true.
+Proof. intros H. induction l as [|x t IH]; [reflexivity|]. cbn. rewrite H. exact IH. Qed.
+
+Lemma ctx_ok_all c : ctx_ok allok c = true.
+Proof. apply forallb_all. intros. apply vok_all. Qed.
+
+Lemma pair_ok_all p : pair_ok allok p = true.
+Proof. unfold Taint.pair_ok. rewrite vok_all. destruct (fst p); [rewrite vok_all|]; reflexivity. Qed.
+
+Lemma lf_ok_all f : lf_ok allok f = true.
+Proof. unfold Taint.lf_ok. rewrite (forallb_all _ _ pair_ok_all), ctx_ok_all, pair_ok_all. reflexivity. Qed.
+
+Lemma scope_ok_all : forall sc, scope_ok allok sc = true.
+Proof.
+  fix IH 1. intros [loops setvars parent context global]. cbn [Taint.scope_ok].
+  rewrite (forallb_all _ _ lf_ok_all), !ctx_ok_all. destruct parent as [p|]; [rewrite (IH p)|];
+    destruct global; cbn; try rewrite ctx_ok_all; reflexivity.
+Qed.
+
+Lemma chunk_ok_all ch : chunk_ok allok ch = true.
+Proof. apply forallb_all. intros [ ]; cbn; try reflexivity; [apply vok_all|apply clean_all]. Qed.
+
+Section Pieces.
+  Variable wd : world.
+  Variable ae : option bool.
+  Variable Lit : str -> Prop.       (* the literal text of the templates *)
+
+  (* one write: literal text, a safe value as formatted, or the escape function applied to the
+     formatted value -- the latter for exactly the values that are not safe *)
+  Definition piece (t : str) : Prop :=
+    Lit t \/ (exists v, value_is_safe v = true /\ t = w_format wd v)
+          \/ (exists v, value_is_safe v = false /\ t = w_escape wd (w_format wd v)).
+
+  Definition wr_pieces (w : list str) (t : str) : option (list str) := Some (w ++ [t]).
+
+  (* the hypotheses: only about the chunks (autoescape on, bodies minted, WriteText is literal text);
+     NOTHING is assumed about the escape function, the filters or the data *)
+  Hypothesis Htpls : forall n t, assoc_get (w_templates wd) n = Some t -> tpl_okP allok ae piece t.
+  Hypothesis Hcomps : forall n d c, assoc_get (w_components wd) n = Some (d, c) -> chunk_okP allok piece c.
+
+  Lemma pieces_world_ok : world_ok wd allok ae piece.
+  Proof.
+    constructor; intros; try apply vok_all; try apply clean_all; try apply ctx_ok_all; eauto.
+  Qed.
+
+  Lemma SInv_all s : blocks_okP allok piece (blocks s) -> SInv allok piece s.
+  Proof.
+    intros Hb. constructor; try exact Hb; try apply ctx_ok_all; try apply clean_all.
+    - apply forallb_all, vok_all.
+    - apply forallb_all, lf_ok_all.
+    - apply forallb_all, clean_all.
+    - destruct (parent s); [apply scope_ok_all|reflexivity].
+    - destruct (global s); [apply ctx_ok_all|reflexivity].
+  Qed.
+
+  Theorem writes_are_pieces : forall fuel tpl depth ch ip s w,
+    tpl_okP allok ae piece tpl -> chunk_okP allok piece ch -> cmatch (the_table ch) ip s ->
+    blocks_okP allok piece (blocks s) -> Forall piece w ->
+    match run (list str) wr_pieces wd fuel tpl ae depth ch ip s (SinkTop w) with
+    | RDone _ (SinkTop w') => Forall piece w'
+    | _ => True
+    end.
+  Proof.
+    intros fuel tpl depth ch ip s w Ht Hc Hm Hb Hw0.
+    pose proof (run_inv (list str) wr_pieces wd allok (Forall piece) ae piece pieces_world_ok) as R.
+    assert (Hwr : forall w t w', wr_pieces w t = Some w' -> Forall piece w -> clean allok t = true -> piece t -> Forall piece w').
+    { intros w1 t w' E H1 _ Hp. inversion E; subst. apply Forall_app. split; [exact H1|constructor; [exact Hp|constructor]]. }
+    specialize (R Hwr).
+    assert (Hraw : forall v, value_is_safe v = true -> piece (w_format wd v)) by (intros v Hv; right; left; eauto).
+    assert (Hesc : forall v, value_is_safe v = false -> piece (w_escape wd (w_format wd v))) by (intros v Hv; right; right; eauto).
+    specialize (R Hraw Hesc fuel tpl depth ch ip s (SinkTop w) Ht Hc Hm (SInv_all s Hb) Hw0).
+    destruct (run (list str) wr_pieces wd fuel tpl ae depth ch ip s (SinkTop w)) as [s1 [w1|b1]| |]; try exact I. apply R.
+  Qed.
+End Pieces.
